@@ -90,6 +90,9 @@ type Record struct {
 	OP    *bool    `json:"op,omitempty"` // MC_OnePass: the model's verdict "one-pass"
 	RSS   []int    `json:"rsS,omitempty"` // MC_ReverseSuffix: bytes of the suffix literal
 	MSZ   *bool    `json:"msz,omitempty"` // MC_ReverseSuffix: the pattern is exactly `.*L`
+	RIP   *AST     `json:"riP,omitempty"` // MC_ReverseInner: the part before the inner literal
+	RIQ   *AST     `json:"riQ,omitempty"` // MC_ReverseInner: the inner literal and what follows it
+	RII   []int    `json:"riI,omitempty"` // MC_ReverseInner: bytes of the inner literal
 	Raw   json.RawMessage
 	ReRaw json.RawMessage `json:"-"`
 }
